@@ -292,7 +292,7 @@ class ModeDReader(MeterReaderBase[DataReadout]):
                 return readouts_received
 
             if self.is_in_hunt_mode:
-                if line[0] == START_CHARACTER_HEX:
+                if line[0] == START_CHARACTER_HEX and line.isascii():
                     line_str = line.decode("ascii")
                     if Ident.is_ident_line(line_str):
                         _LOGGER.debug("Ident line found: %s", line_str)
